@@ -40,7 +40,7 @@ BeginAs(s, rel, aft, ctor) ==
    mayGate |-> rel < TotalBytes(s),
    ref |-> Orc(s, rel, aft), std |-> Orc(s, rel, aft), oracleSame |-> TRUE, cut |-> FALSE, partial |-> FALSE,
    member |-> FALSE, hdrCheck |-> FALSE, group |-> "", groupClause |-> "NONE.group",
-   wantLen |-> -1, wantDigest |-> "", panic |-> "", failing |-> (aft = "error")]
+   wantLen |-> -1, wantDigest |-> "", panic |-> "", failing |-> (aft = "error"), truncated |-> Cut(s, rel, aft)]
 
 \* bytes still deliverable from an abandoned stream are not bytes of the current one
 BeginOf(s, rel, aft) == BeginAs(s, rel, aft, "new")
